@@ -1,7 +1,9 @@
 // C16: operator precedence of condition expressions — drives the real parser.Parse (generated LALR
 // tables of y.go) and condition.Build(...).Match on expressions over primitives with fixed truth values.
 //
-// op = "x <envmask> <expr>": expr over a..z (atom i = letter-'a', truth value = bit i of envmask),
+// op = "x <envmask>[:<missmask>] <expr>": expr over a..z (atom i = letter-'a', truth value = bit i of envmask;
+// if bit i of missmask is set the atom is a primitive whose attribute is MISSING on the fixed request — no such
+// cookie, no TLS state, nil context, no response — so its fetch fails and it is false whatever envmask says),
 // & (&&), | (||), !, ( ), and _ ~ ^ (blank, tab, newline).
 // result = "<s-expression of the real AST> <T|F>" or "err".
 package main
@@ -99,6 +101,14 @@ func pr(r *vh.Rand, b *strings.Builder, n *node, min, extra, drop int) {
 func gen(r *vh.Rand) string {
 	natoms := r.Range(1, 6)
 	mask := r.Intn(1 << uint(natoms))
+	miss := 0
+	if r.Chance(1, 2) {
+		miss = r.Intn(1 << uint(natoms))
+	}
+	env := strconv.Itoa(mask)
+	if miss != 0 {
+		env += ":" + strconv.Itoa(miss)
+	}
 	if r.Chance(1, 12) {
 		// token soup: ties the accepted language
 		n := r.Range(0, 8)
@@ -109,7 +119,7 @@ func gen(r *vh.Rand) string {
 		if b.Len() == 0 {
 			b.WriteByte('_')
 		}
-		return fmt.Sprintf("x %d %s", mask, b.String())
+		return fmt.Sprintf("x %s %s", env, b.String())
 	}
 	t := genTree(r, r.Range(1, 6), natoms)
 	var b strings.Builder
@@ -118,15 +128,28 @@ func gen(r *vh.Rand) string {
 	e, _ := strconv.Atoi(extra)
 	d, _ := strconv.Atoi(drop)
 	pr(r, &b, t, 1, e, d)
-	return fmt.Sprintf("x %d %s", mask, b.String())
+	return fmt.Sprintf("x %s %s", env, b.String())
 }
 
 // ---- execution --------------------------------------------------------------------------------
 
 // atomText gives atom i a real primitive call whose value under fixedReq is val; the index is
 // recoverable from the first argument (suffix after '#').
-func atomText(i int, val bool) string {
+func atomText(i int, val bool, missing bool) string {
 	tag := "#" + strconv.Itoa(i)
+	if missing {
+		// the fetch of these primitives fails on fixedReq (PrimitiveCond.Match returns false before the matcher)
+		switch i % 4 {
+		case 0:
+			return `req_cookie_value_in("ck` + tag + `", "v", false)`
+		case 1:
+			return `ses_tls_sni_in("example.org|s` + tag + `")`
+		case 2:
+			return `req_context_value_in("k` + tag + `", "v", false)`
+		default:
+			return `res_code_in("200|9` + tag + `")`
+		}
+	}
 	switch i % 3 {
 	case 0:
 		if val {
@@ -182,16 +205,23 @@ func exec(op string) string {
 	if len(f) != 3 || f[0] != "x" {
 		return "bad-op"
 	}
-	mask, err := strconv.Atoi(f[1])
-	if err != nil {
+	mm := strings.Split(f[1], ":")
+	mask, err := strconv.Atoi(mm[0])
+	if err != nil || len(mm) > 2 {
 		return "bad-op"
+	}
+	miss := 0
+	if len(mm) == 2 {
+		if miss, err = strconv.Atoi(mm[1]); err != nil {
+			return "bad-op"
+		}
 	}
 	var b strings.Builder
 	for i := 0; i < len(f[2]); i++ {
 		c := f[2][i]
 		switch {
 		case c >= 'a' && c <= 'z':
-			b.WriteString(atomText(int(c-'a'), mask>>uint(c-'a')&1 == 1))
+			b.WriteString(atomText(int(c-'a'), mask>>uint(c-'a')&1 == 1, miss>>uint(c-'a')&1 == 1))
 		case c == '&':
 			b.WriteString("&&")
 		case c == '|':
@@ -231,6 +261,10 @@ func main() {
 		for _, o1 := range ops {
 			for _, o2 := range ops {
 				for m := 0; m < 8; m++ {
+					for _, ms := range []int{1, 2, 5, 7} {
+						emit(fmt.Sprintf("x %d:%d !a%s!b%sc", m, ms, o1, o2))
+						emit(fmt.Sprintf("x %d:%d !(a%sb)%s!c", m, ms, o1, o2))
+					}
 					emit(fmt.Sprintf("x %d a%sb%sc", m, o1, o2))
 					emit(fmt.Sprintf("x %d !a%sb%sc", m, o1, o2))
 					emit(fmt.Sprintf("x %d a%s!b%sc", m, o1, o2))
